@@ -11,7 +11,6 @@ package simrt
 import (
 	"fmt"
 	"hash/fnv"
-	"reflect"
 	"runtime"
 	"runtime/debug"
 	"sort"
@@ -129,7 +128,7 @@ type Sched struct {
 	onCrash   func(*Crash)
 	driver    *G
 	simTime   time.Duration
-	stash     map[uintptr]reflect.Value // timer values drained by breakTimerTie, keyed by channel
+	stash     map[uintptr]stashed // timer values drained by breakTimerTie, keyed by channel
 	timerTies int
 	capHit    string
 	stuck     string
